@@ -49,6 +49,7 @@ type V struct {
 	toolErr      string
 	allowed      map[string][]string
 	cutUsed      map[string]bool
+	opaqueUsed   map[string]bool
 }
 
 func (v *V) note(s string)        { v.notes[s] = true }
@@ -59,7 +60,7 @@ func newV(prog *Prog, fi *FuncInfo, spec *FuncSpec, mode Mode) *V {
 	v := &V{prog: prog, pkg: fi.pkg, fi: fi, spec: spec, d: newDecls(mode), oblInst: map[string]int{}, typeTags: map[string]int{},
 		strLits: map[string]string{}, closures: map[string]*closureInfo{}, loopOrd: map[ast.Stmt]int{}, callOrd: map[*ast.CallExpr]string{},
 		siteOrd: map[ast.Node]int{}, notes: map[string]bool{}, abstractions: map[string]bool{}, trusted: map[string]bool{},
-		cutUsed: map[string]bool{}, atUsed: map[string]bool{}, usedContracts: map[string]*FuncSpec{}, inlined: map[string]bool{}}
+		opaqueUsed: map[string]bool{}, cutUsed: map[string]bool{}, atUsed: map[string]bool{}, usedContracts: map[string]*FuncSpec{}, inlined: map[string]bool{}}
 	heapSortsReset(v.d)
 	return v
 }
